@@ -460,6 +460,7 @@ where
                 let failure = failure.clone();
                 let n = total / workers as u64 + u64::from((w as u64) < total % workers as u64);
                 let mk_strategy = self.strategy;
+                let part_name = self.name;
                 let run = self.run;
                 let sig = self.signature;
                 std::thread::Builder::new()
@@ -473,6 +474,8 @@ where
                             failure_persistence: None,
                             rng_seed: RngSeed::Fixed(mix(base ^ (w as u64 + 1))),
                             max_shrink_iters: 20_000,
+                            // minimality only: a slow failing case (a 20 s 'not prompt') must not shrink for hours
+                            max_shrink_time: 180_000,
                             max_global_rejects: 1_000_000,
                             verbose: 0,
                             ..Config::default()
@@ -497,10 +500,17 @@ where
                             samples: vec![],
                             known_hits: HashSet::new(),
                         });
+                        // set by ./check when a run ended in a process abort: every worker leaves the case
+                        // it is about to run in a file, so that the culprit can be replayed afterwards
+                        let inflight = std::env::var("VERIF_INFLIGHT_DIR").ok().map(|d| format!("{d}/{prop}-{part_name}-w{w}.json"));
                         let res = runner.run(&strategy, |c: C| {
                             let mut l = local.borrow_mut();
                             if !l.shrinking && stop.load(Ordering::Relaxed) {
                                 return Ok(()); // another worker failed: wind down
+                            }
+                            if let Some(path) = &inflight {
+                                let v = json!({"property": prop, "part": part_name, "message": "[abort] the process aborted while this case was running (a panic inside a destructor during unwinding, or a fatal signal)", "case": serde_json::to_value(&c).unwrap_or(Value::Null)});
+                                let _ = std::fs::write(path, v.to_string());
                             }
                             let r = run_guarded(run, &c);
                             match r {
